@@ -10,8 +10,10 @@ import (
 	"sort"
 	"strconv"
 	"testing"
+	"time"
 
 	"Havoc/pkg/agent"
+	"Havoc/pkg/common"
 
 	"pgregory.net/rapid"
 
@@ -21,7 +23,11 @@ import (
 )
 
 type OpA struct {
-	Kind  string `json:"kind"` // task raw relay upload checkin bulk
+	Kind  string `json:"kind"` // task raw relay upload checkin bulk config
+	// config: the operator changes the agent's working hours / kill date (Tmpl "workinghours" /
+	// "killdate", Class = the window class relative to the teamserver's clock or "off" / "future",
+	// N1 / N2 = the window's distances in minutes); a directly connected agent reports the new
+	// value back with the check-in after the one that delivered the task
 	// bulk: N1 small jobs queued one after the other by the same real call (Tmpl "raw":
 	// operator-path jobs with distinct request ids, "relay": SOCKS write jobs with request id 0;
 	// Size data bytes each), with a check-in after every N2 of them (N2 = 0: none)
@@ -44,6 +50,7 @@ type CaseA struct {
 	IDs     []uint32 `json:"ids,omitempty"`     // agent ids (absent: fixed small ids)
 	Parents []int    `json:"parents,omitempty"` // Parents[i] < i: agent i is an SMB pivot child of that agent; -1 / absent: directly connected
 	Ops     []OpA    `json:"ops"`
+	Cfg     Cfg      `json:"cfg,omitempty"` // configuration / environment of the fixture (cfg_test.go)
 }
 
 // idClassA names the class of an agent id (the NameID is its %08x rendering, which code
@@ -125,7 +132,18 @@ func genA(t *rapid.T) CaseA {
 	n := rapid.IntRange(1, 24).Draw(t, "nops")
 	for i := 0; i < n; i++ {
 		op := OpA{Agent: agentfx.Bits(t, "agent", 2) % c.Agents}
-		switch k := agentfx.Weighted(t, "kind", 32, 22, 28, 10, 8); {
+		switch k := agentfx.Weighted(t, "kind", 32, 22, 28, 10, 8, 10); {
+		case k == 5:
+			op.Kind = "config"
+			if agentfx.Weighted(t, "cfgkey", 5, 1) == 0 {
+				op.Tmpl = "workinghours"
+				op.Class = []string{"whole-day", "contains-now", "ended-before-now", "starts-after-now", "to-24:00", "one-minute-not-now", "off", "ended-before-now"}[agentfx.Bits(t, "whclass", 3)]
+				op.N1 = rapid.IntRange(2, 180).Draw(t, "wha")
+				op.N2 = rapid.IntRange(1, 600).Draw(t, "whb")
+			} else {
+				op.Tmpl = "killdate"
+				op.Class = []string{"future", "off"}[agentfx.Bits(t, "kdclass", 1)]
+			}
 		case k == 1:
 			op.Kind = "task"
 			op.Tmpl = rapid.SampledFrom(tmplsA).Draw(t, "tmpl")
@@ -186,6 +204,7 @@ func genA(t *rapid.T) CaseA {
 			c.Ops = append(c.Ops[:at:at], append(ins, c.Ops[at:]...)...)
 		}
 	}
+	c.Cfg = genCfg(t, c.Agents)
 	return c
 }
 
@@ -343,7 +362,7 @@ func checkA(c CaseA) *core.Violation {
 			parents[i] = -1
 		}
 	}
-	w, err := newForest(ids[:c.Agents], parents[:c.Agents])
+	w, err := newForestCfg(ids[:c.Agents], parents[:c.Agents], c.Cfg)
 	if err != nil {
 		return core.V("harness|fixture", "%v", err)
 	}
@@ -378,6 +397,47 @@ func checkA(c CaseA) *core.Violation {
 			a.AddJobToQueue(*job)
 			m.q = append(m.q, &entry{kind: eExact, cmd: uint32(cmd), req: req, pre: body, pure: pure, op: i, via: via})
 			lastA.kinds |= 1
+		case "config":
+			info := map[string]interface{}{"TaskID": fmt.Sprintf("%08X", req), "CommandLine": "config " + op.Tmpl, "DemonID": a.NameID,
+				"CommandID": strconv.Itoa(agent.COMMAND_CONFIG), "ConfigKey": op.Tmpl}
+			now := time.Now()
+			var cb []byte
+			if op.Tmpl == "killdate" {
+				info["ConfigVal"] = "0"
+				kd := int64(0)
+				if op.Class == "future" {
+					at := now.UTC().Add(36 * time.Hour)
+					info["ConfigVal"] = at.Format("2006-01-02 15:04:05")
+					kd = common.EpochTimeToSystemTime(at.Unix())
+				}
+				cb = (&demonref.Enc{}).Int32(agent.CONFIG_KILLDATE).Int64(uint64(kd)).B
+			} else {
+				info["ConfigVal"] = "0"
+				wh := uint32(0)
+				if op.Class != "off" {
+					wh = CfgAgent{WH: op.Class, WHA: op.N1, WHB: op.N2}.workingHours(now)
+					info["ConfigVal"] = fmt.Sprintf("%d:%02d-%d:%02d", wh>>17&0x1f, wh>>11&0x3f, wh>>6&0x1f, wh&0x3f)
+				}
+				cb = (&demonref.Enc{}).Int32(agent.CONFIG_WORKINGHOURS).Int32(wh).B
+			}
+			msg := map[string]string{}
+			job, err := a.TaskPrepare(agent.COMMAND_CONFIG, info, &msg, "client", w.rec)
+			if err != nil || job == nil {
+				lastA.prepErr = true // e.g. a one-minute window: the end must lie after the start
+				continue
+			}
+			body, pure, err := refBody(job.Data)
+			if err != nil {
+				return core.V("harness|refbody", "%v", err)
+			}
+			a.AddJobToQueue(*job)
+			e := &entry{kind: eExact, cmd: agent.COMMAND_CONFIG, req: req, pre: body, pure: pure, op: i, via: via}
+			if len(via) < 2 {
+				// Command.c CommandConfig answers [config id][the value it now holds] under the task's request id
+				e.cb = []demonref.Sub{{Cmd: agent.COMMAND_CONFIG, ReqID: req, Body: cb}}
+			}
+			m.q = append(m.q, e)
+			lastA.kinds |= 32
 		case "raw":
 			n, _ := classSize(op, m.queuedWire(), 32*(len(via)-1)*b2i(len(via) > 1))
 			var data []interface{}
@@ -554,7 +614,14 @@ func classifyA(c CaseA) core.Class {
 			cl.Labels = append(cl.Labels, l)
 		}
 	}
+	for _, op := range c.Ops {
+		if l := "cfg:operator-sets-" + op.Tmpl + "=" + op.Class; op.Kind == "config" && !seen[l] {
+			seen[l] = true
+			cl.Labels = append(cl.Labels, l)
+		}
+	}
 	sort.Strings(cl.Labels)
+	cl.Labels = append(cl.Labels, c.Cfg.labels()...)
 	cl.Labels = append(cl.Labels, "maxqueued:"+bucket(o.maxQueued), fmt.Sprintf("agents:%d", c.Agents))
 	// where tasks were aimed: directly connected agents or pivot agents at depth N, and the id
 	// classes on the hops of the chains that carried a task (first hop excluded: its id is not
@@ -614,6 +681,7 @@ func classifyA(c CaseA) core.Class {
 	cl.Labels = append(cl.Labels, scaleLabel("check-ins-per-history", o.checkins)...)
 	cl.NonTrivial = o.maxQueued >= 2 || o.cut || o.escape
 	cl.Fingerprint = fmt.Sprintf("pd=%d|bighop=%v|q=%s|cut=%v|esc=%v|edge=%v|kinds=%x", maxDepth, bigHop, bucket(o.maxQueued), o.cut, o.escape, o.edge, o.kinds)
+	cl.Fingerprint += c.Cfg.fp()
 	if sb, sc, sk := scaleBucket(o.maxBatch), scaleBucket(o.maxCutBatch), scaleBucket(o.checkins); sb+sc+sk != "" {
 		cl.Fingerprint += "|scale=" + sb + "/" + sc + "/" + sk
 	}
@@ -624,7 +692,7 @@ func TestC04a(t *testing.T) {
 	big()
 	core.Run(t, core.Spec[CaseA]{
 		Property: "C04", Sub: "a",
-		Rule: "histories of 1-24 operations on a forest of 1-4 agents - directly connected ones registered through the real agent endpoint, pivot agents (chains of depth 1-3) linked through the real, relayed SMB_CONNECT callback; every agent id drawn from {<2^31, >=2^31, 2^31-1, 2^31, 2^32-1, leading zero digits}; every enqueue operation may target any agent, check-ins happen at the directly connected agent of the target's chain, where a pivot agent's task must come out wrapped hop by hop (unwrapped with each hop's key and SmbRecv's frame rules), in queue order with everything else queued there: operator task (TaskPrepare + AddJobToQueue as dispatch.go does, 11 command templates), raw job of a size class {no data, small, 1 MiB, just below / exactly at / just above the limit alone, 31 MiB, 'fill' = cumulative queue size lands on limit-1/limit/limit+1}, relay job (SOCKS write, request id 0), chunked fs-upload (0-8 KiB), check-in with / without GET_JOB; at the end every queue is drained. Oracle per check-in: decoded reply is a prefix of the FIFO model (command, request id, body), no-job reply only if nothing queued, several tasks together never exceed the limit, a cut is maximal; after draining one more check-in is a no-job reply. Non-trivial: some check-in saw >=2 queued tasks, or a size cut, or a single task at/above the limit delivered alone; distinct = (deepest pivot target, an id >= 2^31 on a wrapped hop, max queued bucket, cut, escape, exact-boundary, op-kind set). SCALE (1 case in 25): one or two 'bulk' operations are inserted at generated places before / between / after the ordinary operations: N small jobs (0-40 data bytes, numbered) queued for one agent of the forest by a loop of the same AddJobToQueue call - operator-path jobs with distinct request ids or SOCKS relay write jobs with request id 0 - N from the threshold-adjacent pool {63,64,65, 127..129, 255..257, 511..513, 999..1001, 1023..1025, 2047..2049, 4095..4097, 8191..8193} (quick tier cut at 8193; thorough up to 16385; weights favour 999-4097); the bulk either stays queued (13 of 20; then, in 3 of 4, the next operation is a raw job of one of the large size classes for the same agent, so that the reply taking the N jobs meets the 30 MB decisions: batch of N + remainder, N + fill to limit-1/limit/limit+1) or has a check-in after every 1/2/3/16/100/1000/1024 jobs (number of check-ins per history at scale); the per-check-in oracle is unchanged and linear in the reply; labels scale:queued-jobs-at-a-check-in / jobs-in-one-reply / jobs-in-one-reply-leaving-a-remainder / check-ins-per-history with buckets 64-129, 255-513, 999-1025, 2047-4097, 8191+",
+		Rule: "histories of 1-24 operations on a forest of 1-4 agents - directly connected ones registered through the real agent endpoint, pivot agents (chains of depth 1-3) linked through the real, relayed SMB_CONNECT callback; every agent id drawn from {<2^31, >=2^31, 2^31-1, 2^31, 2^32-1, leading zero digits}; every enqueue operation may target any agent, check-ins happen at the directly connected agent of the target's chain, where a pivot agent's task must come out wrapped hop by hop (unwrapped with each hop's key and SmbRecv's frame rules), in queue order with everything else queued there: operator task (TaskPrepare + AddJobToQueue as dispatch.go does, 11 command templates), raw job of a size class {no data, small, 1 MiB, just below / exactly at / just above the limit alone, 31 MiB, 'fill' = cumulative queue size lands on limit-1/limit/limit+1}, relay job (SOCKS write, request id 0), chunked fs-upload (0-8 KiB), check-in with / without GET_JOB; at the end every queue is drained. Oracle per check-in: decoded reply is a prefix of the FIFO model (command, request id, body), no-job reply only if nothing queued, several tasks together never exceed the limit, a cut is maximal; after draining one more check-in is a no-job reply. Non-trivial: some check-in saw >=2 queued tasks, or a size cut, or a single task at/above the limit delivered alone; distinct = (deepest pivot target, an id >= 2^31 on a wrapped hop, max queued bucket, cut, escape, exact-boundary, op-kind set). SCALE (1 case in 25): one or two 'bulk' operations are inserted at generated places before / between / after the ordinary operations: N small jobs (0-40 data bytes, numbered) queued for one agent of the forest by a loop of the same AddJobToQueue call - operator-path jobs with distinct request ids or SOCKS relay write jobs with request id 0 - N from the threshold-adjacent pool {63,64,65, 127..129, 255..257, 511..513, 999..1001, 1023..1025, 2047..2049, 4095..4097, 8191..8193} (quick tier cut at 8193; thorough up to 16385; weights favour 999-4097); the bulk either stays queued (13 of 20; then, in 3 of 4, the next operation is a raw job of one of the large size classes for the same agent, so that the reply taking the N jobs meets the 30 MB decisions: batch of N + remainder, N + fill to limit-1/limit/limit+1) or has a check-in after every 1/2/3/16/100/1000/1024 jobs (number of check-ins per history at scale); the per-check-in oracle is unchanged and linear in the reply; labels scale:queued-jobs-at-a-check-in / jobs-in-one-reply / jobs-in-one-reply-leaving-a-remainder / check-ins-per-history with buckets 64-129, 255-513, 999-1025, 2047-4097, 8191+. Operation 'config' (1 in 10): the operator sets the working hours (whole day / containing now / ended before now / starting after now / to 24:00 / a one-minute window, which TaskPrepare rejects / off) or the kill date (tomorrow / off) of any agent through TaskPrepare(COMMAND_CONFIG); the task is queued and modelled like every operator task, and a directly connected agent reports the value back (COMMAND_CONFIG callback under the task's request id) with the check-in after the one that delivered it, which is how Info.WorkingHours / Info.KillDate change during a history (labels cfg:operator-sets-<key>=<class>)" + cfgRule,
 		Gen:  genA, Check: checkA, Classify: classifyA,
 		Assumptions: []string{
 			"sizes are compared with a tolerance band: a multi-task reply violates the bound only if its payload without length prefixes exceeds the limit; a cut violates maximality only if reply + next task incl. 12-byte headers stay below the limit (the statement fixes neither the size measure nor >= vs >)",
